@@ -20,7 +20,7 @@ def predicate_accept_set(M: Model, suite, meth, kind):
     X = v if kind == "int" else Term("len", (v,), "int")
 
     def run(it):
-        recv = [] if m.kind == "staticmethod" else [cls]
+        recv = [] if (m.kind == "staticmethod" or m.cls is None) else [cls]
         r = it.call_func(m, recv + [v], {})
         return it.truth(r)          # force a decision on a returned boolean term
 
